@@ -62,7 +62,7 @@ class Delivery:
     # t = instant at which the delivery was observed; lo = earliest instant at which it can have happened
     # (a stream batch is observed by the next SR, possibly much later than it was sent); dl = the ack deadline
     # (seconds) the subscription had when the delivery was observed
-    __slots__ = ("sub", "ack", "mid", "data", "attrs", "pt", "t", "lo", "dl", "resp", "via")
+    __slots__ = ("sub", "inst", "ack", "mid", "data", "attrs", "pt", "t", "lo", "lo_i", "dl", "resp", "via")
 
     def __init__(self, **kw):
         for k, v in kw.items():
@@ -92,6 +92,9 @@ class History:
         self.events = []       # (kind, dict)
         self.sub_ackdl = {}    # sub name hex -> effective seconds (as answered by the server)
         self.stream_sub = {}
+        self.stream_inst = {}
+        self.sub_inst = {}     # sub name -> number of successful creations so far (the current instance)
+        self.bg = {}           # id of a background Pull -> (sub, instance, start instant, op index)
         self.bad = None
         acks_seen = []
         for idx, (o, r) in enumerate(zip(ops, lines)):
@@ -112,7 +115,16 @@ class History:
             ev = {"i": idx, "t": self.now, "op": ot, "res": rt, "code": code}
             if k == "ADV":
                 self.now += int(ot[1])
+            elif k == "BG" and ot[2:3] == ["PULL"]:
+                self.bg[ot[1]] = (ot[3], self.sub_inst.get(ot[3], 0), self.now, idx)
+            elif k == "JOIN" and ot[1] in self.bg and rt[2:4] == ["PULL", "0"]:
+                bsub, binst, bt, bi = self.bg.pop(ot[1])
+                msgs, _ = parse_msgs(rt, 5, int(rt[4]))
+                ev["msgs"] = [Delivery(sub=bsub, inst=binst, ack=m[0], mid=m[1], data=m[2], attrs=m[3], pt=m[4], t=self.now,
+                                       lo=bt, lo_i=bi, dl=self.sub_ackdl.get(bsub), resp=idx, via="join") for m in msgs]
+                acks_seen += [m[0] for m in msgs]
             elif k == "CS" and code == "0":
+                self.sub_inst[rt[2]] = self.sub_inst.get(rt[2], 0) + 1
                 # the lease length the property promises (requested, at least 10 s; capped at the 600 s every
                 # implementation grants), not the value the server echoes
                 try:
@@ -125,14 +137,17 @@ class History:
                 ev["topic"] = ot[1]
             elif k == "PULL" and code == "0":
                 msgs, _ = parse_msgs(rt, 3, int(rt[2]))
-                ev["msgs"] = [Delivery(sub=ot[1], ack=m[0], mid=m[1], data=m[2], attrs=m[3], pt=m[4], t=self.now,
-                                       lo=self.now, dl=self.sub_ackdl.get(ot[1]), resp=idx, via="pull") for m in msgs]
+                ev["msgs"] = [Delivery(sub=ot[1], inst=self.sub_inst.get(ot[1], 0), ack=m[0], mid=m[1], data=m[2], attrs=m[3],
+                                       pt=m[4], t=self.now, lo=self.now, lo_i=idx, dl=self.sub_ackdl.get(ot[1]), resp=idx, via="pull") for m in msgs]
                 acks_seen += [m[0] for m in msgs]
                 ev["max"] = int(ot[2])
             elif k == "SO" and code == "0":
                 self.stream_sub[ot[1]] = ot[2]
+                self.stream_inst[ot[1]] = self.sub_inst.get(ot[2], 0)
                 self.stream_seen = getattr(self, "stream_seen", {})
                 self.stream_seen[ot[1]] = self.now
+                self.stream_seen_i = getattr(self, "stream_seen_i", {})
+                self.stream_seen_i[ot[1]] = idx
                 ev["max"] = int(ot[3])
             elif k == "SR":
                 nresp = int(rt[1])
@@ -143,8 +158,9 @@ class History:
                     msgs, i = parse_msgs(rt, i + 1, n)
                     sub = self.stream_sub.get(ot[1], "?")
                     seen_at = getattr(self, "stream_seen", {}).get(ot[1], 0)
-                    ds = [Delivery(sub=sub, ack=m[0], mid=m[1], data=m[2], attrs=m[3], pt=m[4], t=self.now,
-                                   lo=seen_at, dl=self.sub_ackdl.get(sub), resp=(idx, len(batches)), via="stream")
+                    seen_i = getattr(self, "stream_seen_i", {}).get(ot[1], idx)
+                    ds = [Delivery(sub=sub, inst=self.stream_inst.get(ot[1], 0), ack=m[0], mid=m[1], data=m[2], attrs=m[3],
+                                   pt=m[4], t=self.now, lo=seen_at, lo_i=seen_i, dl=self.sub_ackdl.get(sub), resp=(idx, len(batches)), via="stream")
                           for m in msgs]
                     acks_seen += [m[0] for m in msgs]
                     batches.append(ds)
@@ -153,6 +169,8 @@ class History:
                 ev["sid"] = ot[1]
                 self.stream_seen = getattr(self, "stream_seen", {})
                 self.stream_seen[ot[1]] = self.now
+                self.stream_seen_i = getattr(self, "stream_seen_i", {})
+                self.stream_seen_i[ot[1]] = idx
             elif k in ("ACK",):
                 n = int(ot[2])
                 ev["ids"] = [res(x) for x in ot[3:3 + n]]
@@ -170,6 +188,7 @@ class History:
                 toks = toks[1 + nm:]
                 ns = int(toks[0]); s = [int(x) for x in toks[1:1 + ns]]
                 ev.update({"acks": a, "mods": m, "secs": s, "sid": ot[1], "sub": self.stream_sub.get(ot[1], "?"),
+                           "written": rt[1:2] == ["1"],
                            "subfield": ot[2], "mm": int(ot[3]), "mb": int(ot[4])})
             self.events.append(ev)
 
@@ -196,11 +215,19 @@ def ack_value(tok):
     return int(s[1:] if s.startswith("+") else s)
 
 
+def ss_certainly_applied(e):
+    """A StreamingPull control message that the server certainly accepts and applies as a whole."""
+    return (e.get("written") and e.get("subfield") == "-" and e.get("mm") == 0 and e.get("mb") == 0
+            and len(e["mods"]) == len(e["secs"])
+            and all(is_u64(x) for x in e["acks"] + e["mods"]) and all(x >= 0 for x in e["secs"]))
+
+
 def lease_windows(h):
-    """For every delivery: the instant until which it is certainly still outstanding
-    (its ack deadline computed without rounding: a lower bound of the stored deadline),
-    cut short by the first ack/nack/modify naming its ack id on its subscription or by the
-    subscription's deletion.  -> list of (delivery, t_from, t_until, ended_by_ack)"""
+    """For every delivery: the instant until which it is certainly still outstanding (its ack deadline computed
+    without rounding: a lower bound of the stored deadline).  An acknowledgement, a nack (0 seconds) or the deletion
+    of the subscription ends the window; a modification by N > 0 seconds that certainly applies moves its end to
+    that instant + min(N, 600) s; a modification of which it is not certain that it applies (a stream control message
+    that may be rejected) ends it (conservative).  -> list of (delivery, event, t_until, acked_at)"""
     out = []
     evs = h.events
     for ev, d in h.deliveries():
@@ -213,25 +240,50 @@ def lease_windows(h):
             av = ack_value(d.ack)
         except Exception:
             continue
+
+        def names(lst):
+            return any(is_u64(x) and ack_value(x) == av for x in lst)
         for e2 in evs:
-            if e2["i"] <= ev["i"]:
+            # a stream batch is observed by the SR that follows it: requests issued since the previous read of the
+            # stream may have come after the delivery (then they count) or before it (then they were inert)
+            if e2["i"] <= d.lo_i or e2["i"] == ev["i"]:
                 continue
+            uncertain = e2["i"] < ev["i"]
             if e2["t"] >= until:
                 break
             k = e2["op"][0]
-            named = False
-            if k in ("ACK", "MOD") and e2.get("sub") == d.sub and e2["code"] == "0":
-                named = any(is_u64(x) and ack_value(x) == av for x in e2["ids"])
-            elif k == "SS" and e2.get("sub") == d.sub:
-                named = any(is_u64(x) and ack_value(x) == av for x in e2["acks"] + e2["mods"])
-            elif k == "DS" and e2["op"][1] == d.sub and e2["code"] == "0":
+            if uncertain:
+                touched = ((k in ("ACK", "MOD") and e2.get("sub") == d.sub and names(e2.get("ids", []))) or
+                           (k == "SS" and e2.get("sub") == d.sub and (names(e2["acks"]) or names(e2["mods"]))) or
+                           (k == "DS" and e2["op"][1] == d.sub))
+                if touched:
+                    until = d.lo          # nothing is certain about this lease
+                    break
+                continue
+            if k == "DS" and e2["op"][1] == d.sub and e2["code"] == "0":
                 until = e2["t"]
                 break
-            if named:
-                until = e2["t"]
-                if k == "ACK" or (k == "SS" and any(is_u64(x) and ack_value(x) == av for x in e2["acks"])):
-                    acked_at = e2
+            if k == "ACK" and e2.get("sub") == d.sub and e2["code"] == "0" and names(e2["ids"]):
+                until, acked_at = e2["t"], e2
                 break
+            if k == "MOD" and e2.get("sub") == d.sub and e2["code"] == "0" and names(e2["ids"]):
+                if e2["secs"] > 0:
+                    until = e2["t"] + min(e2["secs"], 600) * 10 ** 9
+                    continue
+                until = e2["t"]
+                break
+            if k == "SS" and e2.get("sub") == d.sub and (names(e2["acks"]) or names(e2["mods"])):
+                if not ss_certainly_applied(e2):
+                    until = e2["t"]
+                    break
+                if names(e2["acks"]):
+                    until, acked_at = e2["t"], e2
+                    break
+                mine = [sec for x, sec in zip(e2["mods"], e2["secs"]) if ack_value(x) == av]
+                if 0 in mine:
+                    until = e2["t"]
+                    break
+                until = e2["t"] + min(mine[-1], 600) * 10 ** 9
         out.append((d, ev, until, acked_at))
     return out
 
@@ -244,7 +296,7 @@ def mon_exclusive(ops, lines):
         return "C03-" + h.bad
     seen = {}
     for ev, d in h.deliveries():
-        key = (d.sub, d.ack)
+        key = (d.sub, d.inst, d.ack)
         if key in seen:
             return "C03-ackid-reused: ack id %r handed out twice on %r" % (unhx(d.ack), unhx(d.sub))
         seen[key] = 1
@@ -256,8 +308,12 @@ def mon_exclusive(ops, lines):
                 return "C03-dup-in-response: op %d returned the same message twice" % ev["i"]
     for d, ev, until, _ in lease_windows(h):
         for ev2, d2 in h.deliveries():
-            later = ev2["i"] > ev["i"] or (ev2["i"] == ev["i"] and d2 is not d and d2.resp > d.resp)
-            if later and d2.sub == d.sub and d2.mid == d.mid and ev2["t"] < until:
+            # hand-out order on one subscription = order of the ack ids (observation order can differ: blocked Pulls
+            # joined late, stream batches read late)
+            if d2 is d or not (is_u64(d.ack) and is_u64(d2.ack)):
+                continue
+            later = ack_value(d2.ack) > ack_value(d.ack)
+            if later and d2.sub == d.sub and d2.inst == d.inst and d2.mid == d.mid and ev2["t"] < until:
                 return ("C03-double-lease: message %r delivered on %r at %d ns and again at %d ns although its lease "
                         "lasts until %d ns at least" % (unhx(d.mid), unhx(d.sub), d.t, ev2["t"], until))
     return None
@@ -272,7 +328,7 @@ def mon_ack_final(ops, lines):
         if acked is None:
             continue
         for ev2, d2 in h.deliveries():
-            if ev2["i"] > acked["i"] and d2.sub == d.sub and d2.mid == d.mid:
+            if ev2["i"] > acked["i"] and d2.sub == d.sub and d2.inst == d.inst and d2.mid == d.mid:
                 return ("C02-redelivered-after-ack: message %r acked on %r (op %d, ack id %r) was delivered again at op %d"
                         % (unhx(d.mid), unhx(d.sub), acked["i"], unhx(d.ack), ev2["i"]))
     return None
@@ -357,18 +413,32 @@ def mon_order(ops, lines):
                 per_topic[ev["topic"]] = v
                 order[mid] = n
                 n += 1
-    first_seen = {}
-    last_first = {}
+    # the order in which a subscription handed its messages out is the order of its ack ids (observation order may
+    # differ: several consumers, stream batches read late); first deliveries = smallest ack id per message
+    firsts = {}
     for ev, d in h.deliveries():
-        key = (d.sub, d.mid)
-        if key in first_seen or d.mid not in order:
+        if d.mid not in order or not is_u64(d.ack):
             continue
-        first_seen[key] = 1
-        prev = last_first.get(d.sub)
-        if prev is not None and order[d.mid] < prev:
-            return ("C08-first-delivery-order: on %r message %r was first delivered after a message published later"
-                    % (unhx(d.sub), unhx(d.mid)))
-        last_first[d.sub] = order[d.mid]
+        key = (d.sub, d.inst)
+        cur = firsts.setdefault(key, {})
+        a = ack_value(d.ack)
+        if d.mid not in cur or a < cur[d.mid]:
+            cur[d.mid] = a
+    seen_acks = {}
+    for ev, d in h.deliveries():
+        if is_u64(d.ack):
+            seen_acks.setdefault((d.sub, d.inst), set()).add(ack_value(d.ack))
+    for (sub, inst), cur in firsts.items():
+        # ack ids count the hand-outs of the subscription from 1: a gap is a delivery the script never read (a blocked
+        # Pull that was not joined again); beyond the first gap "first delivery" is not known
+        gap = 1
+        while gap in seen_acks.get((sub, inst), ()):
+            gap += 1
+        seq = sorted(((m, a) for m, a in cur.items() if a < gap), key=lambda kv: kv[1])
+        for (m1, _), (m2, _) in zip(seq, seq[1:]):
+            if order[m2] < order[m1]:
+                return ("C08-first-delivery-order: on %r message %r was first delivered after %r, which was published later"
+                        % (unhx(sub), unhx(m2), unhx(m1)))
     return None
 
 
@@ -539,14 +609,18 @@ def mon_wait(ops, lines):
 def mon_release(ops, lines):
     """C12: after DeleteSubscription answered OK, every stream open on it ends with NOT_FOUND, every Pull blocked on it
     has returned an error, and calls racing the deletion have completed."""
-    stream_sub, bg_sub, deleted_at = {}, {}, {}
+    stream_sub, bg_sub, deleted_at, stream_opened = {}, {}, {}, {}
     ended = set()
     for i, (o, r) in enumerate(zip(ops, lines)):
         ot, rt = o.split(" "), r.split(" ")
         if r.startswith("!"):
             return "C12-noanswer: op %d got %s" % (i, r[:60])
+        if ot[0] == "CS" and rt[1:2] == ["0"]:
+            deleted_at.pop(ot[1], None)      # a new subscription of that name
         if ot[0] == "SO" and rt[1:2] == ["0"]:
             stream_sub[ot[1]] = ot[2]
+            stream_opened[ot[1]] = i
+            ended.discard(ot[1])
         if ot[0] == "BG":
             inner = ot[2:]
             if inner[0] in ("PULL", "ACK", "MOD", "GS", "STATS"):
@@ -557,7 +631,11 @@ def mon_release(ops, lines):
             deleted_at[ot[1]] = i
         if ot[0] == "SR" and ot[1] in stream_sub:
             sub = stream_sub[ot[1]]
-            if sub in deleted_at and ot[1] not in ended:
+            if sub not in deleted_at and rt[-1] != "-":
+                ended.add(ot[1])          # the stream had ended (e.g. a rejected control message) before any deletion
+            if ot[0] == "SO":
+                pass
+            if sub in deleted_at and ot[1] not in ended and stream_opened.get(ot[1], -1) < deleted_at[sub]:
                 if rt[-1] != "5":
                     return ("C12-stream-not-released: stream %s on %r shows terminal %r after the deletion at op %d"
                             % (ot[1], unhx(sub), rt[-1], deleted_at[sub]))
@@ -571,7 +649,9 @@ def mon_release(ops, lines):
                 if rt[2:] == ["-"]:
                     return "C12-call-hangs: call %s on %r is still pending after the deletion" % (ot[1], unhx(sub))
                 blocking = ops[start].split(" ")[2] == "PULL" and ops[start].endswith(" 0")
-                if blocking and rt[2:5] == ["PULL", "0", "0"]:
+                # a blocked Pull whose 300 s limit had passed before the deletion returned empty legitimately
+                waited = sum(int(x.split(" ")[1]) for x in ops[start:deleted_at[sub]] if x.startswith("ADV "))
+                if blocking and rt[2:5] == ["PULL", "0", "0"] and waited < 299 * 10 ** 9:
                     return "C12-pull-empty-after-delete: blocked Pull %s answered OK with no messages" % ot[1]
     return None
 
@@ -1022,4 +1102,25 @@ def mon_cs(ops, lines):
     if not deleted and fin[:2] == ["STATS", "0"] and int(fin[3]) > 0 and (waiting or stalled):
         return ("C06-lost-wakeup: backlog is %s at the end of the case, after every consumer had its turns, and handler(s) %s "
                 "are still waiting (streams: no batch in their last three polls)" % (fin[3], ",".join(waiting + stalled)))
+    return None
+
+
+def mon_pull_limit(ops, lines):
+    """C07: a blocking Pull returns no later than its 300 s wait limit (plus a tick), whatever woke it meanwhile."""
+    now, started = 0, {}
+    for i, (o, r) in enumerate(zip(ops, lines)):
+        ot, rt = o.split(" "), r.split(" ")
+        if r.startswith("!"):
+            return "C07-noanswer: op %d got %s" % (i, r[:60])
+        if ot[0] == "ADV":
+            now += int(ot[1])
+        if ot[0] == "BG" and ot[2:3] == ["PULL"] and ot[-1] == "0":
+            started[ot[1]] = now
+        if ot[0] == "JOIN" and ot[1] in started:
+            if rt[2:] == ["-"]:
+                if now - started[ot[1]] >= 301 * 10 ** 9:
+                    return ("C07-pull-exceeds-limit: blocking Pull %s is still waiting %.1f s after it was issued (limit 300 s)"
+                            % (ot[1], (now - started[ot[1]]) / 1e9))
+            else:
+                started.pop(ot[1])
     return None
